@@ -21,6 +21,8 @@ var c11FaultExprs = []string{
 	"\"x\"()", "[1]()", "null()", "(1).upper()", "fo.nosuch()",
 	"printf(\"%q\", 1)", "printf(\"%5\", 1)", "printf(\"%s %s\", 1)", "printf(1)",
 	"(\"a\" ~ \"[z-a]\")", "(\"a\" !~ \"(?<\")", "$0", "\"a\".split()", "json()",
+	// a container compared with itself; a malformed regex at a site that has already matched with a good one
+	"(garr == garr)", "(fo >= fo)", "(garr[1] != garr[1])", "(tre(\"b\") + tre(\"(\"))", "(tre(\"a\") && tre(\"a\") && tre(\"[\"))",
 }
 
 // syntactic shapes that put a failing expression E into a slot of a statement
@@ -32,6 +34,7 @@ var c11Shapes = []string{
 
 // statement-level faults that are not an expression in a slot
 var c11StmtFaults = []string{
+	"for (q in [\"b\", \"(\"]) { fx = \"ab\" ~ q }", "for (q in [garr, 1]) { fx = q == q }",
 	"for (q in 5) { }", "for (q in null) { }", "sc.k = 2", "sc.y++", "fx = --sc.y", "garr[0 - 9] = 1", "garr[2000000] = 1", "sc.k.l = 1", "fx = garr[0 - 9]",
 	// a literal that fails when evaluated, as a match pattern: top level, inside an array pattern, nested, as a later alternative
 	"fx = match (\"x\") { \"a\\q\" => 0 }", "fx = match ([\"x\"]) { [\"a\\q\"] => 0 }", "fx = match ([[\"x\"]]) { [[\"a\\q\"]] => 0 }",
@@ -45,7 +48,7 @@ type faultVec struct {
 	Outcome string `json:"outcome"`
 }
 
-const c11Preamble = "function tf(a, b) {\n  return a\n}\nBEGIN {\n  nf = 5\n  sc = 1\n  garr = [1]\n  fo = {}\n}\n"
+const c11Preamble = "function tf(a, b) {\n  return a\n}\nfunction tre(p) {\n  return \"ab\" ~ p\n}\nBEGIN {\n  nf = 5\n  sc = 1\n  garr = [1, [2]]\n  fo = {}\n}\n"
 
 // C11: syntax errors pre-empt all execution; runtime faults stop the run at the fault.
 func checkC11(c *Ctx) {
